@@ -42,6 +42,7 @@ const ParsingInfo& RSModel::GetParse(const EntityUID entity) const {
 EntityUID RSModel::Emplace(const CstType type, const std::string& definition) {
   const auto result = core.Emplace(type, definition);
   AfterInsert(result);
+  ResetDependants(result); // constituents that mention the new name may have become correct
   NotifyModification();
   return result;
 }
@@ -49,6 +50,7 @@ EntityUID RSModel::Emplace(const CstType type, const std::string& definition) {
 EntityUID RSModel::InsertCopy(const EntityUID target, const RSCore& source) {
   const auto result = core.InsertCopy(target, source);
   AfterInsert(result);
+  ResetDependants(result); // constituents that mention the new name may have become correct
   NotifyModification();
   return result;
 }
@@ -56,6 +58,7 @@ EntityUID RSModel::InsertCopy(const EntityUID target, const RSCore& source) {
 EntityUID RSModel::InsertCopy(const ConceptRecord& cst) {
   const auto result = core.InsertCopy(cst);
   AfterInsert(result);
+  ResetDependants(result); // constituents that mention the new name may have become correct
   NotifyModification();
   return result;
 }
@@ -65,6 +68,9 @@ VectorOfEntities RSModel::InsertCopy(const std::vector<ConceptRecord>& input) {
   for (const auto uid : result) {
     AfterInsert(uid);
   }
+  for (const auto uid : result) {
+    ResetDependants(uid); // constituents that mention a new name may have become correct
+  }
   NotifyModification();
   return result;
 }
@@ -73,6 +79,9 @@ VectorOfEntities RSModel::InsertCopy(const VectorOfEntities& input, const RSCore
   auto result = core.InsertCopy(input, source);
   for (const auto uid : result) {
     AfterInsert(uid);
+  }
+  for (const auto uid : result) {
+    ResetDependants(uid); // constituents that mention a new name may have become correct
   }
   NotifyModification();
   return result;
@@ -95,12 +104,18 @@ bool RSModel::Erase(const EntityUID target) {
   if (!core.Contains(target)) {
     return false;
   }
+  const auto dependants = core.RSLang().Graph().ExpandOutputs({ target });
   ResetDependants(target); // Note: dependants are known only while target is still part of the graph
   if (!core.Erase(target)) {
     return false;
   } else {
     dataFacet->Erase(target);
     calulatorFacet->Erase(target);
+    for (const auto dependant : dependants) {
+      if (dependant != target && core.GetRS(dependant).type == CstType::structured) {
+        Values().PruneStructure(dependant); // a structure over the erased constituent is no longer correct
+      }
+    }
     NotifyModification();
     return true;
   }
